@@ -5,6 +5,10 @@
 # and stores patch + demo + meta + results under /verif/seeded/<Cxx>-<v>/.
 set -u
 ID="$1"; V="$2"; shift 2
+# EVAL_REPO / EVAL_VERIF: run against an isolated copy (scratch worktree of /repo + copy of /verif whose harness
+# path-depends on it) instead of /repo and /verif themselves; used for triage while /verif is being edited.
+REPO="${EVAL_REPO:-/repo}"
+VERIF="${EVAL_VERIF:-/verif}"
 W=/tmp/seed/$ID
 S=$W/seeded/$V
 OUT=/verif/seeded/$ID-$V
@@ -33,16 +37,16 @@ if [ "$CONF" != "true" ]; then
   echo "NOT CONFIRMED"; exit 4
 fi
 # ---- run the checks against it
-cd /repo || exit 2
+cd "$REPO" || exit 2
 if ! git diff --quiet; then echo "/repo working tree not clean"; exit 2; fi
 if ! git apply "$S/patch.diff"; then echo "patch does not apply to /repo"; exit 3; fi
 CHECKS="$*"
-[ -z "$CHECKS" ] && CHECKS=$(jq -r '.checks[].property_id' /verif/MANIFEST.json)
+[ -z "$CHECKS" ] && CHECKS=$(jq -r '.checks[].property_id' "$VERIF/MANIFEST.json")
 FIRED=""; ERR=""
 mkdir -p "$OUT/logs"
 for P in $CHECKS; do
-  rm -f /verif/out/replays/$P-*.json
-  (cd /verif && ./check "$P" > "$OUT/logs/$P.log" 2>&1); rc=$?
+  rm -f "$VERIF"/out/replays/$P-*.json
+  (cd "$VERIF" && ./check "$P" > "$OUT/logs/$P.log" 2>&1); rc=$?
   if grep -q '^VIOLATION' "$OUT/logs/$P.log"; then
     FIRED="$FIRED $P"
     grep -A1 '^VIOLATION' "$OUT/logs/$P.log" | grep signature | cut -c1-220 | head -4 > "$OUT/logs/$P.sigs"
@@ -50,10 +54,10 @@ for P in $CHECKS; do
 done
 git checkout -q -- .
 # restore evidence files of the unchanged tree (they were rewritten by runs against the seeded change)
-(cd /verif && git checkout -q -- evidence)
-python3 - "$OUT" "$ID" "$V" "$CLEAN_RC" "$BUG_RC" "$BASE" "$FIRED" "$ERR" "$CHECKS" <<'PY'
+[ "$VERIF" = /verif ] && (cd /verif && git checkout -q -- evidence)
+python3 - "$OUT" "$ID" "$V" "$CLEAN_RC" "$BUG_RC" "$BASE" "$FIRED" "$ERR" "$CHECKS" "$REPO" <<'PY'
 import json,sys,os
-out,idp,v,c,b,base,fired,err,checks=sys.argv[1:]
+out,idp,v,c,b,base,fired,err,checks,repo=sys.argv[1:]
 am={}
 try: am=json.load(open(out+'/agent_meta.json'))
 except Exception: pass
@@ -63,7 +67,7 @@ for p in fired.split():
     except Exception: sigs[p]=[]
 meta={"property":idp,"variant":v,"summary":am.get("summary"),"needs_to_manifest":am.get("needs_to_manifest"),"files_touched":am.get("files_touched"),
  "what_i_ran":["demo on clean tree: rc=%s"%c,"demo with the change: rc=%s"%b,"crate test suite with the change: %s"%base,
-               "git -C /repo apply patch.diff; ./check <id> for: %s; git -C /repo checkout -- ."%checks],
+               "git -C %s apply patch.diff; ./check <id> (quick tier) for: %s; git -C %s checkout -- ."%(repo,checks,repo)],
  "checks_that_fired":fired.split(),"checks_with_harness_error":err.split(),"signatures":sigs,"detected":idp in fired.split(),"confirmed":True}
 json.dump(meta,open(out+'/meta.json','w'),indent=1)
 json.dump({"confirmed":True,"fired":fired.split(),"errors":err.split()},open(out+'/results.json','w'))
